@@ -61,6 +61,27 @@ pub fn run(em: &mut Emit, thorough: bool, seed: u64) {
             emit_program(em, p, &spec, "nt=1;kind=c02-text");
         }
     }
+    // the same built-ins over long texts: digit runs beyond 64 and 128 bits, long fractions,
+    // long exponents, long multi-byte runs
+    for &n in &[20usize, 26, 39, 40, 41, 64, 130, 300] {
+        for sv in [format!("1.{}s", "9".repeat(n)), "9".repeat(n), format!("0.{}1ms", "0".repeat(n)), format!("{}.5h", "1".repeat(n)),
+                   "é".repeat(n), format!("a{}", "é".repeat(n)), "日".repeat(n), format!("a{}", "日".repeat(n)), format!("ab{}", "日".repeat(n)),
+                   format!("{}u", "9".repeat(n)), format!("-{}", "9".repeat(n)), format!("1e{}", "9".repeat(n)),
+                   format!("0.{}1", "0".repeat(n)), format!("{}.{}", "7".repeat(n), "3".repeat(n)), format!("1970-01-01T00:00:00.{}Z", "1".repeat(n)),
+                   format!("{}e-{}", "1".repeat(n), n)] {
+            let spec = CtxSpec {
+                vars: vec![("s".into(), Value::String(Arc::new(sv.clone()))), ("t".into(), Value::String(Arc::new("s".to_string()))),
+                           ("i".into(), Value::Int((n / 2) as i64))],
+                funs: vec![],
+            };
+            for p in ["duration(s)", "timestamp(s)", "int(s)", "uint(s)", "double(s)", "bytes(s)", "string(bytes(s))", "size(s)", "s[i]",
+                      "s.contains(t)", "s.endsWith(t)", "duration(s + t)", "duration(s + 'ns')", "double(s + s)", "s.matches(t)",
+                      // a value of the wrong kind for the function: the error has to describe it
+                      "s.getHours()", "getFullYear(s)", "[s, s].startsWith(t)", "t.endsWith([s])", "{s: s}.contains(1).size()", "bytes(s).getDate()"] {
+                emit_program(em, p, &spec, "nt=1;kind=c02-text-long");
+            }
+        }
+    }
     run_profile(
         em,
         seed,
